@@ -97,7 +97,11 @@ BLOCKS = {
     "Waveguide_lossy": (lambda: lk.Waveguide(2.0, n=1.5 + 0.01j), ["wl"]),
     "UserWaveguide": (lambda: lk.UserWaveguide(2.5, uw_index, {"wl": 1.0, "T": 1.0}), ["wl", "T"]),
     "UserWaveguide_modes": (lambda: lk.UserWaveguide(2.5, uw_index, {"wl": 1.0, "T": 1.0},
-                                                     {"te": {}, "tm": {"T": 3.0}}), ["wl"]),
+                                                     {"te": {}, "tm": {"T": 3.0}}), ["wl", "T"]),
+    "UserWaveguide_modes_rev": (lambda: lk.UserWaveguide(2.5, uw_index, {"wl": 1.0, "T": 1.0},
+                                                         {"tm": {"T": 3.0}, "te": {}}), ["wl", "T"]),
+    "UserWaveguide_modes_keys": (lambda: lk.UserWaveguide(2.5, uw_index, {"wl": 1.0},
+                                                          {"a": {"T": 2.0}, "b": {"q": 1.0}, "c": {}}), ["wl"]),
     "BeamSplitter": (lambda: lk.BeamSplitter(0.3), ["wl"]),
     "Splitter1x2": (lambda: lk.Splitter1x2(), ["wl"]),
     "Splitter1x2Gen": (lambda: lk.Splitter1x2Gen(0.1, 0.25), ["wl"]),
